@@ -42,6 +42,8 @@ class PID_GK(BasePID):
             The value of I_wedge.
         """
         d = d.coalesce(sources + (target,))
-        d = Distribution(d.outcomes, d.pmf, sample_space=d.outcomes)
+        # the meet is sensitive to zeros in the sample space: keep the atoms of positive probability only
+        outcomes, pmf = zip(*d.zipped(mode='patoms'))
+        d = Distribution(outcomes, pmf, sample_space=outcomes)
         d = insert_meet(d, -1, d.rvs[:-1])
         return coinformation(d, [d.rvs[-2], d.rvs[-1]])
